@@ -24,6 +24,7 @@ pub fn base_model() -> Model {
         ("f", FnModel::Identity),
         ("nest", FnModel::Nested),
         ("cnt", FnModel::NeedsTuple),
+        ("nf", FnModel::FailNotFound("typeof")),
     ] {
         m.funs.insert(n.to_string(), f);
     }
@@ -135,7 +136,8 @@ impl<'a> ProgGen<'a> {
             // a variable read of a name that is only bound as a function; a re-entrant function; a function that
             // rejects non-tuples with the library's own error
             let k = self.k;
-            return match self.r.below(4) {
+            return match self.r.below(5) {
+                4 => call("nf", k),
                 0 => Ast::Read((*self.r.pick(&["t", "id", "b", "fail"])).to_string()),
                 1 => call("nest", k),
                 2 => call("cnt", k),
@@ -575,6 +577,22 @@ pub fn check_program(out: &mut Out, ast: &Ast, model: &Model, r: &mut Rng) {
         out.evals(2);
         out.count("reused precompiled trees");
         exec::compare(out, "order/reused-tree", &src, model, &rr, &again, Entry::TreeMut);
+    }
+    // a tree that received this program through `clone_from` (over a longer, a shorter and a differently shaped
+    // tree) is this program: equal, and evaluated with the same effects
+    if judged && r.chance(1, 6) {
+        let donor_src = *r.pick(&["t(901); t(902); t(903); t(904); (t(905), t(906), t(907), t(908)); x = 9; y = 8", "x", "(t(911), t(912), t(913), t(914), t(915), t(916))", "fail(920) + t(921) * (t(922) - t(923))"]);
+        if let Built::Tree(mut t2) = api::build(donor_src) {
+            t2.clone_from(&tree);
+            out.count("trees overwritten through clone_from");
+            if t2 != tree {
+                out.violation("order/clone_from", format!("`{}`.clone_from(`{}`)", donor_src, src), format!("{:?}", tree), format!("{:?}", t2));
+            } else {
+                let ic = exec::run_impl(&src, Some(&t2), model, Entry::TreeMut, false);
+                out.eval();
+                exec::compare(out, "order/clone_from", &src, model, &rr, &ic, Entry::TreeMut);
+            }
+        }
     }
     // the typed views evaluate exactly once as well: same effects, same final context
     if judged {
